@@ -223,9 +223,14 @@ def run_real_init(dfols, case, rng, bounds_style):
     else:
         bounds = (xl, xu)
     C.Controller.initialise_coordinate_directions = wrapped
+    extra = {}
+    if (bounds[0] is None or bounds[1] is None) and rng.random() < 0.5:
+        # documented: scaling_within_bounds needs a two-sided box and is ignored (with a warning) otherwise,
+        # so the initial set must be exactly what it is without the flag
+        extra["scaling_within_bounds"] = True
     try:
         soln = core.with_alarm(20, dfols.solve, f, case["x0"].copy(), bounds=bounds, npt=npt, rhobeg=case["rhobeg"],
-                               rhoend=min(1e-8, case["rhobeg"] * 1e-3), maxfun=npt, do_logging=False)
+                               rhoend=min(1e-8, case["rhobeg"] * 1e-3), maxfun=npt, do_logging=False, **extra)
     finally:
         C.Controller.initialise_coordinate_directions = orig
     return calls, captured, soln
